@@ -30,13 +30,20 @@ FAULTS = ("eof", "reset", "garbage-eof", "write-error", "sorry")
 
 
 def model(chk: Check, tier: str, prefix="C13"):
+    import re
+    from concurrent.futures import ThreadPoolExecutor
     tot_s = tot_t = 0
-    for cfg in (("MC_Client_quick.cfg", "MC_Client_slow.cfg", "MC_Client_slowC.cfg") if tier != "thorough" else
-                ("MC_Client_thorough.cfg", "MC_Client_slow_thorough.cfg", "MC_Client_slowC_thorough.cfg")):
-        r = run_tlc("MC_Client", cfg, name="MC_Client", timeout=7200, coverage=True, heap="6g" if tier == "thorough" else "2g")
+    cfgs = (("MC_Client_quick.cfg", "MC_Client_slow.cfg", "MC_Client_slowC.cfg") if tier != "thorough" else
+            ("MC_Client_thorough.cfg", "MC_Client_slow_thorough.cfg", "MC_Client_slowC_thorough.cfg"))
+
+    def one(cfg):       # the three callback regimes side by side; action counts (-coverage) for the vacuity gates
+        return run_tlc("MC_Client", cfg, name="MC_Client-" + cfg[10:-4], timeout=7200, coverage=True, workers=6,
+                       heap="6g" if tier == "thorough" else "3g")
+    with ThreadPoolExecutor(3) as ex:
+        results = list(ex.map(one, cfgs))
+    for cfg, r in zip(cfgs, results):
         for inv in r.violated:
             viol = ""
-            import re
             m = re.findall(r'viol \|-> "([^"]*)"', r.out)
             if m:
                 viol = m[-1]
